@@ -532,6 +532,76 @@ func signing(r *ev.Run) {
 			r.Nontrivial(fmt.Sprintf("finished-context:%s:%d", mode, n))
 		}
 	}
+	// endpoints that cannot even be dialled (a zone-scoped IPv6 literal whose '%' makes an invalid URL escape, an empty
+	// name, a name with a space): failed endpoints like any other, never a crash; the healthy one after them signs
+	for bi, badEP := range []string{"fe80::1%eth0", "", "bad host", "[::1", "127.0.0.1:1:2", "%zz"} {
+		c := r.Case("sign-undiallable-endpoint", bi)
+		if c == nil {
+			continue
+		}
+		text, want, _ := reply(c.Rand, 1)
+		byIP[ips[0]].Set(func(context.Context, *proto.SSHCertificateSigningRequest) (*proto.SSHKey, error) {
+			return &proto.SSHKey{Key: text}, nil
+		})
+		for _, list := range [][]string{{badEP, ips[0]}, {badEP}} {
+			rec := map[string]any{"endpoints": list}
+			r.Eval(1)
+			var certs []ssh.PublicKey
+			var serr, cerr error
+			if r.Guard(c, "Signer with an undiallable endpoint", rec, func() {
+				var signer *crypki.Signer
+				signer, cerr = crypki.NewSigner(crypki.SignerConfig{TLSClientKeyFile: clientKey, TLSClientCertFile: clientCert, TLSCACertFiles: []string{caPath}, CrypkiEndpoints: list, CrypkiPort: uint(port), Retries: 1, PerTryTimeout: 3 * time.Second})
+				if cerr != nil {
+					return
+				}
+				ctx, cancel := context.WithTimeout(context.Background(), 60*time.Second)
+				defer cancel()
+				certs, _, serr = signer.Sign(ctx, &proto.SSHCertificateSigningRequest{KeyMeta: &proto.KeyMeta{Identifier: "x"}, Principals: []string{"a"}, PublicKey: "k", Validity: 60})
+			}) {
+				break
+			}
+			switch {
+			case cerr != nil:
+				r.Count("undiallable endpoint refused at construction", 1)
+			case len(list) == 2 && (serr != nil || len(certs) != len(want) || string(certs[0].Marshal()) != string(want[0].Marshal())):
+				r.Violation(c, "sign-fails-although-an-endpoint-signed:undiallable-first-endpoint", fmt.Sprintf("endpoints %q: err=%v certs=%d", list, serr, len(certs)), rec)
+			case len(list) == 1 && serr == nil:
+				r.Violation(c, "empty-success:undiallable-endpoint", fmt.Sprintf("endpoints %q: certs=%d", list, len(certs)), rec)
+			default:
+				r.Count("undiallable endpoints treated as failed endpoints", 1)
+				r.Nontrivial(fmt.Sprintf("undiallable:%q:%d", badEP, len(list)))
+			}
+		}
+	}
+	// a caller's deadline that leaves room for the second endpoint after the first used up its per-try time
+	if c := r.Case("sign-tight-deadline", 0); c != nil {
+		byIP[ips[0]].Set(func(ctx context.Context, _ *proto.SSHCertificateSigningRequest) (*proto.SSHKey, error) {
+			<-ctx.Done()
+			return nil, ctx.Err()
+		})
+		text, want, _ := reply(c.Rand, 1)
+		byIP[ips[1]].Set(func(context.Context, *proto.SSHCertificateSigningRequest) (*proto.SSHKey, error) {
+			return &proto.SSHKey{Key: text}, nil
+		})
+		r.Eval(1)
+		signer, err := crypki.NewSigner(crypki.SignerConfig{TLSClientKeyFile: clientKey, TLSClientCertFile: clientCert, TLSCACertFiles: []string{caPath}, CrypkiEndpoints: []string{ips[0], ips[1]}, CrypkiPort: uint(port), Retries: 1, PerTryTimeout: 2500 * time.Millisecond})
+		if err == nil {
+			ctx, cancel := context.WithTimeout(context.Background(), 4*time.Second)
+			t0 := time.Now()
+			certs, _, serr := signer.Sign(ctx, &proto.SSHCertificateSigningRequest{KeyMeta: &proto.KeyMeta{Identifier: "x"}, Principals: []string{"a"}, PublicKey: "k", Validity: 60})
+			took := time.Since(t0)
+			cancel()
+			switch {
+			case took > 3700*time.Millisecond:
+				r.Count("tight deadline: the machine was too slow to leave the second endpoint any time (not judged)", 1)
+			case serr != nil || len(certs) != len(want):
+				r.Violation(c, "sign-fails-although-an-endpoint-signed:tight-deadline", fmt.Sprintf("caller deadline 4 s, per-try time 2.5 s, first endpoint hangs, second is healthy: err=%v after %s; the second endpoint received %d requests", serr, took.Round(time.Millisecond), len(byIP[ips[1]].Calls())), nil)
+			default:
+				r.Count("failover within the caller's deadline after the first endpoint used up its per-try time", 1)
+				r.Nontrivial("tight-deadline")
+			}
+		}
+	}
 	// an endpoint whose well-formed reply holds public keys but not a single certificate: whatever Sign makes of it
 	// (the keys as they are, or the next endpoint's certificates, or an error), it is never a success without anything
 	for pi, two := range []bool{false, true} {
